@@ -75,8 +75,8 @@ Definition cb_torn_down (c : cbst) : bool := match c with CbReg | CbRun => false
 Definition racy (p : params) : bool :=
   match first p with
   | FSafe => true
-  | FUnsafe | FNone => second p
-  | FSync | FInl => false
+  | FNone => second p
+  | FSync | FInl | FUnsafe => false
   end.
 
 Definition final_ok (p : params) (s : st) : bool :=
@@ -232,8 +232,7 @@ Definition witness (p : params) : list nat :=
   | FSafe, false => [0; 0; 0; 0; 1; 3; 3; 3; 3; 3; 3; 1]
   | FSafe, true => [0; 0; 0; 0; 2; 3; 3; 3; 3; 3; 3; 2]
   | FNone, _ => [0; 0; 0; 0; 2; 3; 3; 3; 3; 3; 3; 2]
-  | FSync, _ | FInl, _ => []
-  | FUnsafe, _ => [0; 0; 0; 0; 0; 2; 3; 3; 3; 3; 3; 3; 3; 2]
+  | FSync, _ | FInl, _ | FUnsafe, _ => []
   end.
 
 Theorem quiet_after_completion_refuted : forall p, racy p = true ->
